@@ -479,3 +479,23 @@ func (c *Ctx) StringConst(spec string) (string, bool) {
 	}
 	return constant.StringVal(o.Val()), true
 }
+
+// PAddrOf: v is the address of a local cell every store to which matches p (e.g. &pubKey).
+func PAddrOf(p Pat) Pat {
+	return func(v ssa.Value) bool {
+		a, ok := v.(*ssa.Alloc)
+		if !ok {
+			return false
+		}
+		n := 0
+		for _, r := range *a.Referrers() {
+			if st, ok := r.(*ssa.Store); ok && st.Addr == ssa.Value(a) {
+				n++
+				if !p(st.Val) {
+					return false
+				}
+			}
+		}
+		return n > 0
+	}
+}
